@@ -212,7 +212,7 @@ def gen_config(cs, tier='quick', force=None):
         inputs.append({'name': name, 'dist': d[0], 'args': list(d[1:]), 'edge': edge,
                        'discrete': bool(spec.get('discrete'))})
     c['inputs'] = inputs
-    nout = 1 + cs.choose(3, 'nout')
+    nout = 1 + cs.choose(5, 'nout')
     on = list(outs)
     c['outputs'] = [on.pop(cs.choose(len(on), 'out')) for _ in range(nout)]
     it = ITER_TABLE_HIP if hip else ITER_TABLE_GEO
